@@ -81,15 +81,8 @@ def handle : List String → String
         | some sc => runCase nk ps sc
   | _ => "bad-op"
 
-/-- counter-example lines replayed on the implementation on every run (see Witness.lean) -/
-def witnessLines : List String := [
-  -- Witness.mixed_use_full_fails (F12): LoadOrStore returns (nil, true); its Delete destructs another caller's live value
-  "sched 1 N0f;S0,d0;N0o 0100122111",
-  -- Witness.references_full_fails: References returns (0, true)
-  "sched 1 S0,d0;R0 0101",
-  -- Witness.one_undestructed_value_full_fails: value 2 constructed before value 1 is destructed
-  "sched 1 S0,d0;N0o 0011",
-  -- Witness.range_failing_ctor_deadlock_reachable: Range vs failing constructor
-  "sched 1 N0f;G 001"]
+/-- counter-example lines replayed on the implementation on every run: none — no clause of the
+    property is known to fail on the repaired code -/
+def witnessLines : List String := []   -- the former witnesses are regression lines in corpus/C04/fixed-findings.txt
 
 end CaddyModel.C04
